@@ -6,6 +6,7 @@ use std::collections::HashMap;
 use std::sync::Arc;
 
 pub mod c01;
+pub mod conf;
 
 pub struct Ctx {
     pub tier: Tier,
@@ -92,6 +93,7 @@ pub fn constructible(s: &dyn Subject) -> bool {
 pub fn replay(property: &str, case: &serde_json::Value) -> Result<(), String> {
     match property {
         "C01" => c01::replay(case),
+        "C02" | "C05" | "C06" | "C07" | "C08" | "C09" | "C10" if matches!(case["kind"].as_str(), Some("conf") | Some("conf-batch")) => conf::replay(case),
         _ => Err(format!("no replay for {property}")),
     }
 }
@@ -99,6 +101,13 @@ pub fn replay(property: &str, case: &serde_json::Value) -> Result<(), String> {
 pub fn run(property: &str, ctx: &Ctx, rep: &mut Report) -> Result<(), String> {
     match property {
         "C01" => c01::run(ctx, rep),
+        "C02" => conf::run_conf("C02", &["aes"], ctx, rep),
+        "C05" => conf::run_conf("C05", &["des"], ctx, rep),
+        "C06" => conf::run_conf("C06", &["aria", "camellia", "sm4"], ctx, rep),
+        "C07" => conf::run_conf("C07", &["kuznyechik", "magma", "belt-block"], ctx, rep),
+        "C08" => conf::run_conf("C08", &["serpent", "twofish", "cast6"], ctx, rep),
+        "C09" => conf::run_conf("C09", &["blowfish", "cast5", "idea", "rc2", "xtea"], ctx, rep),
+        "C10" => conf::run_conf("C10", &["rc5", "speck-cipher", "threefish", "gift-cipher"], ctx, rep),
         _ => return Err(format!("unknown property {property}")),
     }
     Ok(())
